@@ -60,6 +60,10 @@ class Stochastic(BigSMILESbase):
         # Right terminal bond descriptor
         i = middle_text.rfind("[")
         right_bond_text = middle_text[i : middle_text.find("]", middle_text.rfind("[")) + 1]
+        if len(middle_text[middle_text.find("]", i) + 1 :].strip()) > 0:
+            raise RuntimeError(
+                f"Stochastic object {self._raw_text} has text after its right terminal bond descriptor."
+            )
         while i > 0 and middle_text[i] in r".-=#$:/\@":
             i -= 1
         right_preceding_char = middle_text[i : middle_text.find("[", i)]
